@@ -114,9 +114,12 @@ def main(argv=None):
             n_runs = args.runs
         if args.budget:
             wall_cap = args.budget
+        is_known = name.startswith("known:")
         m = run_campaign(prop_id, tier, seed, name, n_runs, wall_cap, workers=args.workers,
-                         chunk=prop.chunk, start_index=args.start)
+                         chunk=prop.chunk, start_index=args.start, stop_on_violation=not is_known)
         campaigns[name] = m
+        if is_known:
+            print(f"campaign {name}: failing runs in the known-defect region: {m['n_violating']} of {m['runs']}")
         print(f"campaign {name}: runs={m['runs']}/{n_runs} nontrivial={m['nontrivial']} "
               f"distinct={len(m['sigs'])} skipped={m['skipped']} wall={m['wall_s']:.1f}s"
               f"{' (wall-capped)' if m['capped'] else ''}")
@@ -131,6 +134,24 @@ def main(argv=None):
                 print(f"  plan saved to {p}")
         seen_known = set()
         seen_oracles = set()
+        # failing runs of a known-defect region that the workers minimised and matched against a listed finding
+        for kid, kv in sorted(m.get("known", {}).items()):
+            entry = [e for e in findings.load().get("open", []) if e["id"] == kid][0]
+            sm = kv["sample"]
+            path = _replay_path(prop_id, seed, tier, name.replace(":", "_"), sm["index"])
+            with open(path, "w") as f:
+                json.dump({"plan": sm["plan"], "violation": sm["violation"], "digest": sm["digest"],
+                           "original_index": sm["index"], "shrink_executions": sm["shrink_executions"],
+                           "original_ops": sm["original_ops"], "known_finding": kid}, f, indent=1, default=str)
+            rp = subprocess.run([os.path.join(VERIF, "check"), prop_id, "--replay", path], cwd=VERIF,
+                                capture_output=True, text=True, timeout=300)
+            if rp.returncode != 1 or "digest=match" not in rp.stdout:
+                print(f"HARNESS-ERROR replay of {path} in a fresh interpreter did not reproduce exactly:\n{rp.stdout}\n{rp.stderr[-1500:]}")
+                exit_code = max(exit_code, 2)
+                continue
+            known_reported.append({"id": kid, "failing_runs_matched": kv["count"], "replay": path})
+            print(f"KNOWN-FINDING: property={prop_id} {kid} {entry['what']} "
+                  f"[{kv['count']} failing runs matched; replay={path}]")
         for viol in m["violations"]:
             first = viol["violations"][0]
             # one report per violated oracle per campaign (the lowest run index), so that a defect hit by
@@ -147,7 +168,7 @@ def main(argv=None):
                 continue
             v = [x for x in res.violations if x.oracle == first["oracle"]][0]
             known = findings.classify(prop_id, small, v.to_json())
-            path = _replay_path(prop_id, seed, tier, name, viol["index"])
+            path = _replay_path(prop_id, seed, tier, name.replace(":", "_"), viol["index"])
             with open(path, "w") as f:
                 json.dump({"plan": small, "violation": v.to_json(), "digest": res.digest,
                            "original_index": viol["index"], "shrink_executions": used,
@@ -162,8 +183,8 @@ def main(argv=None):
             if known is not None:
                 if known["id"] not in seen_known:
                     seen_known.add(known["id"])
-                    known_reported.append(known["id"])
-                    print(f"KNOWN-FINDING: property={prop_id} {known['what']} [replay={path}]")
+                    known_reported.append({"id": known["id"], "replay": path})
+                    print(f"KNOWN-FINDING: property={prop_id} {known['id']} {known['what']} [replay={path}]")
                 continue
             n_viol += 1
             exit_code = max(exit_code, 1)
